@@ -710,6 +710,16 @@ func (c *EvalCtx) evalCall(e *Expr) TVal {
 			return c.mk(sel(sel(dom, m.T), k.T), sBool, tb)
 		}
 		return c.mk(and(not(eq(m.T, "0")), sel(sel(dom, m.T), k.T)), sBool, tb)
+	case "substr":
+		// substr(s, lo, hi): the term the engine uses for s[lo:hi] on strings
+		sv, lo, hi := c.eval(e.Args[0]), c.eval(e.Args[1]), c.eval(e.Args[2])
+		w.declFun("substr", "(declare-fun substr (Int Int Int) Int)")
+		return c.mk("(substr "+sv.T+" "+lo.T+" "+hi.T+")", sInt, types.Typ[types.String])
+	case "strindex", "strlastindex":
+		sv, sub := c.eval(e.Args[0]), c.eval(e.Args[1])
+		n := map[string]string{"strindex": "str_Index", "strlastindex": "str_LastIndex"}[e.Name]
+		w.declFun(n, fmt.Sprintf("(declare-fun %s (Int Int) Int)", n))
+		return c.mk("("+n+" "+sv.T+" "+sub.T+")", sInt, ti)
 	case "nolocks":
 		// the calling goroutine holds no lock at all
 		return c.mk("(= "+fr.heapCur(c.st, w.HeldHeap())+" ((as const (Array Int Int)) 0))", sBool, tb)
